@@ -123,7 +123,16 @@ type ctxKey struct{}
 // logRec is one record as the base handler received it.
 type logRec struct {
 	Msg   string
+	Mw    int         // the middleware instance whose base handler got the record (0: none)
 	Attrs []slog.Attr // handler attributes (read when the record was handled) + record attributes
+}
+
+// layerSt is what is known about one LogMiddleware layer a request passed.
+type layerSt struct {
+	mw       int
+	d        *derived
+	started  int
+	finished int
 }
 
 // reqState is everything known about one request: what was sent, what the
@@ -131,21 +140,23 @@ type logRec struct {
 // base handler got.  In free-running mode it is touched only by the goroutine
 // that serves the request.
 type reqState struct {
-	slot int
-	spec reqSpec
-	ops  []op
-	ctx  context.Context // the client's context: carries this *reqState
-	body *ridBody
-	rec  *clientRec
+	slot  int
+	spec  reqSpec
+	ops   []op
+	route []int           // the middleware instances the request passes, from the outside in
+	ctx   context.Context // the client's context: carries this *reqState
+	body  *ridBody
+	rec   *clientRec
 
-	phase      int // 0 new, 1 started seen, 2 in handler, 3 handler returned, 4 finished seen
-	finEnGated bool
-	runs       int // inner handler invocations
-	probes     int
-	readSoFar  []byte
-	made       []call // calls the inner handler made on its writer
-	recs       []logRec
-	problems   []string
+	phase       int // 0 new, 1 started seen, 2 in handler, 3 handler returned, 4 finished seen
+	finGatedFor *derived
+	layers      []*layerSt // in the order the layers were entered
+	runs        int        // inner handler invocations
+	probes      int
+	readSoFar   []byte
+	made        []call // calls the inner handler made on its writer
+	recs        []logRec
+	problems    []string
 
 	// object identities (nil when not seen)
 	attrPtr *slog.Attr
@@ -242,6 +253,7 @@ type env struct {
 	tr     *tracer
 	retain bool
 	off    bool       // base handler disabled
+	mwOff  bool       // the middleware's level (Debug) is below the base handler's minimum (Info): no started / finished records, but the inner handler logs at Warn and its context logger must still carry the request's attributes
 	yield  bool       // free running: yield the processor at every gate to shuffle the requests
 	col    *collector // loopback mode: records are collected, not routed by context
 
@@ -261,8 +273,25 @@ func (e *env) gate(pt string) {
 	}
 }
 
+// enabledAt is the base handler's level filter.
+func (e *env) enabledAt(l slog.Level) bool { return !e.off && (!e.mwOff || l >= slog.LevelInfo) }
+
+func (e *env) mwLevel() slog.Level {
+	if e.mwOff {
+		return slog.LevelDebug
+	}
+	return slog.LevelInfo
+}
+
+func (e *env) probeLevel() slog.Level {
+	if e.mwOff {
+		return slog.LevelWarn
+	}
+	return slog.LevelInfo
+}
+
 func (e *env) newRequest(slot, rid int, ops []op) (st *reqState, r *http.Request) {
-	st = &reqState{slot: slot, spec: mkSpec(rid), ops: ops}
+	st = &reqState{slot: slot, spec: mkSpec(rid), ops: ops, route: []int{1}}
 	st.body = &ridBody{r: strings.NewReader(st.spec.body)}
 	st.rec = &clientRec{e: e, owner: rid, hdr: http.Header{}}
 	st.ctx = context.WithValue(context.Background(), ctxKey{}, st)
@@ -287,26 +316,32 @@ func stateOf(ctx context.Context) *reqState {
 // returns a derived handler that either keeps the very slice it was given
 // (slog: "The Handler owns the slice: it may retain, modify or discard it")
 // or copies it, as the standard handlers do.
-type rootHandler struct{ e *env }
+type rootHandler struct {
+	e  *env
+	id int // the middleware instance it belongs to
+}
 
 type derived struct {
 	e       *env
+	root    *rootHandler
 	attrs   []slog.Attr // retained or copied
 	more    []slog.Attr // from further WithAttrs calls
 	ptr     *slog.Attr
 	ridThen int
-	moved   bool
 }
 
-func (h *rootHandler) Enabled(context.Context, slog.Level) bool { return !h.e.off }
-func (h *rootHandler) WithGroup(string) slog.Handler            { return h }
+func (h *rootHandler) Enabled(_ context.Context, l slog.Level) bool { return h.e.enabledAt(l) }
+func (h *rootHandler) WithGroup(string) slog.Handler                { return h }
+
+// Handle on the root: somebody logs through the bare base logger, so the
+// record carries no handler attributes at all.
 func (h *rootHandler) Handle(ctx context.Context, r slog.Record) error {
-	return (&derived{e: h.e}).Handle(ctx, r)
+	return (&derived{e: h.e, root: h}).Handle(ctx, r)
 }
 
 func (h *rootHandler) WithAttrs(attrs []slog.Attr) slog.Handler {
 	h.e.gate("withattrs")
-	d := &derived{e: h.e, ridThen: attrsRid(attrs)}
+	d := &derived{e: h.e, root: h, ridThen: attrsRid(attrs)}
 	if len(attrs) > 0 {
 		d.ptr = &attrs[0]
 	}
@@ -325,26 +360,43 @@ func (d *derived) WithAttrs(a []slog.Attr) slog.Handler {
 	return &n
 }
 
-func (d *derived) adopt(st *reqState) {
-	if st.attrPtr == nil && d.ptr != nil {
+// adopt attributes the derived handler (one per LogMiddleware layer of a
+// request, created by WithAttrs without a context) to the request on its
+// first call that carries the request's context.
+func (d *derived) adopt(st *reqState) *layerSt {
+	for _, l := range st.layers {
+		if l.d == d {
+			return l
+		}
+	}
+	l := &layerSt{d: d}
+	if d.root != nil {
+		l.mw = d.root.id
+	}
+	if d.ptr == nil {
+		return l // the bare base logger: not a layer
+	}
+	st.layers = append(st.layers, l)
+	if st.attrPtr == nil {
 		st.attrPtr, st.attrRid = d.ptr, d.ridThen
 	}
+	return l
 }
 
-func (d *derived) Enabled(ctx context.Context, _ slog.Level) bool {
+func (d *derived) Enabled(ctx context.Context, lvl slog.Level) bool {
 	if d.e.off {
 		return false
 	}
 	if st := stateOf(ctx); st != nil {
 		d.adopt(st)
-		if st.phase == 3 && !st.finEnGated {
-			// The first Enabled after the inner handler returned: logFinished
-			// has not evaluated rw.code yet.
-			st.finEnGated = true
+		if st.phase >= 3 && st.finGatedFor != d {
+			// The first Enabled of a layer after the inner handler returned: its
+			// logFinished has not evaluated rw.code yet.
+			st.finGatedFor = d
 			d.e.gate("readcode")
 		}
 	}
-	return true
+	return d.e.enabledAt(lvl)
 }
 
 func (d *derived) snapshot(r slog.Record) []slog.Attr {
@@ -367,12 +419,13 @@ func (d *derived) Handle(ctx context.Context, r slog.Record) error {
 		d.e.mu.Unlock()
 		return nil
 	}
-	d.adopt(st)
+	layer := d.adopt(st)
 	switch r.Message {
 	case "started":
 		before := attrsRid(d.attrs)
 		d.e.gate("started")
-		rec := logRec{Msg: r.Message, Attrs: d.snapshot(r)}
+		layer.started++
+		rec := logRec{Msg: r.Message, Mw: layer.mw, Attrs: d.snapshot(r)}
 		if a := attrsRid(d.attrs); a != before {
 			st.problem("the logger's attributes changed from request %d's to request %d's while the started record was being handled", before, a)
 		}
@@ -384,7 +437,8 @@ func (d *derived) Handle(ctx context.Context, r slog.Record) error {
 	case "finished":
 		before := attrsRid(d.attrs)
 		d.e.gate("finished")
-		rec := logRec{Msg: r.Message, Attrs: d.snapshot(r)}
+		layer.finished++
+		rec := logRec{Msg: r.Message, Mw: layer.mw, Attrs: d.snapshot(r)}
 		if a := attrsRid(d.attrs); a != before {
 			st.problem("the logger's attributes changed from request %d's to request %d's while the finished record was being handled", before, a)
 		}
@@ -394,7 +448,7 @@ func (d *derived) Handle(ctx context.Context, r slog.Record) error {
 			d.e.tr.finished(st, rec)
 		}
 	default:
-		st.recs = append(st.recs, logRec{Msg: r.Message, Attrs: d.snapshot(r)})
+		st.recs = append(st.recs, logRec{Msg: r.Message, Mw: layer.mw, Attrs: d.snapshot(r)})
 	}
 	return nil
 }
@@ -539,12 +593,16 @@ func (st *reqState) observe(e *env, ev string, w http.ResponseWriter, r *http.Re
 
 	// The writer: the wrapper must lead to this request's client writer.
 	cl := -1
-	if wr, ok := w.(httputil.Wrapper); ok {
-		if c, _ := wr.Unwrap().(*clientRec); c != nil {
+	for cur, hops := w, 0; cur != nil && hops < 8; hops++ {
+		if c, _ := cur.(*clientRec); c != nil {
 			cl = c.owner
+			break
 		}
-	} else if c, _ := w.(*clientRec); c != nil {
-		cl = c.owner
+		wr, ok := cur.(httputil.Wrapper)
+		if !ok {
+			break
+		}
+		cur = wr.Unwrap()
 	}
 	if cl != sp.rid {
 		st.problem("the ResponseWriter given to request %d leads to the client of request %d", sp.rid, cl)
@@ -569,7 +627,7 @@ func (st *reqState) observe(e *env, ev string, w http.ResponseWriter, r *http.Re
 		st.problem("inner handler of request %d has no context logger", sp.rid)
 	} else if !e.off {
 		n := len(st.recs)
-		l.InfoContext(st.ctx, "probe", "probe_rid", sp.rid, "k", st.probes)
+		l.Log(st.ctx, e.probeLevel(), "probe", "probe_rid", sp.rid, "k", st.probes)
 		if len(st.recs) == n+1 {
 			lrid = attrsRid(st.recs[n].Attrs)
 		} else {
@@ -674,8 +732,25 @@ func (st *reqState) check(e *env, expectedFin int) (problems []string, policy bo
 			}
 		}
 	}
-	if nStarted != 1 || nFinished != 1 {
-		add("request %d: %d started and %d finished records (want one each)", sp.rid, nStarted, nFinished)
+	want1 := len(st.route)
+	if e.mwOff {
+		want1 = 0 // the middleware's own level is filtered out by the base handler
+	}
+	if nStarted != want1 || nFinished != want1 {
+		add("request %d through %d LogMiddleware layer(s): %d started and %d finished records (want %d each)",
+			sp.rid, len(st.route), nStarted, nFinished, want1)
+	}
+	if len(st.layers) == len(st.route) {
+		for i, l := range st.layers {
+			if l.mw != st.route[i] {
+				add("request %d: layer %d logs through middleware %d, its route is %v", sp.rid, i+1, l.mw, st.route)
+			}
+			if !e.mwOff && (l.started != 1 || l.finished != 1) {
+				add("request %d: layer %d (middleware %d) logged %d started and %d finished records", sp.rid, i+1, l.mw, l.started, l.finished)
+			}
+		}
+	} else if st.runs > 0 && !e.mwOff {
+		add("request %d: %d LogMiddleware layers derived a logger for it, its route %v has %d", sp.rid, len(st.layers), st.route, len(st.route))
 	}
 	if nProbe != st.probes {
 		add("request %d: %d of %d probes arrived through its context logger", sp.rid, nProbe, st.probes)
@@ -825,8 +900,24 @@ func (tr *tracer) end(st *reqState) {
 }
 
 // newMw builds the middleware under test on a fresh base handler.
-func (e *env) newMw() *httputil.LogMiddleware {
-	return httputil.NewLogMiddleware(slog.New(&rootHandler{e: e}), slog.LevelInfo)
+func (e *env) newMw() *httputil.LogMiddleware { return e.newMws(1)[0] }
+
+// newMws builds n middleware instances, each with its own base handler (so
+// that records tell which instance logged them) and its own pools.
+func (e *env) newMws(n int) []*httputil.LogMiddleware {
+	out := make([]*httputil.LogMiddleware, n)
+	for i := range out {
+		out[i] = httputil.NewLogMiddleware(slog.New(&rootHandler{e: e, id: i + 1}), e.mwLevel())
+	}
+	return out
+}
+
+// through wraps h with the instances of route, outermost first.
+func through(mws []*httputil.LogMiddleware, route []int, h http.Handler) http.Handler {
+	for i := len(route) - 1; i >= 0; i-- {
+		h = mws[route[i]-1].Wrap(h)
+	}
+	return h
 }
 
 func (tr *tracer) takeBad() []string {
